@@ -472,15 +472,14 @@ func c22Scenarios(r *vrt.R) []mcx.Scenario {
 		return p
 	}
 	for ci, cd := range c22Codecs {
-		// the four stacklessWrite* wrappers are copies of each other: the full bound for gzip, one less for the others in
-		// the quick tier
+		// the four stacklessWrite* wrappers are copies of each other: the full bound for gzip, one less for the others
 		ab := b
-		if ci != 0 && !th {
+		if ci != 0 {
 			ab = b - 1
 		}
 		add(fmt.Sprintf("codec/%s/append/cap1/3callers", cd.Name), ab, c22CodecBody(1, same(ci, 0, 3), false), c22CodecCheck)
 		add(fmt.Sprintf("codec/%s/write-buffer/cap2/3callers", cd.Name), vrt.Pick(r, 1, 2), c22CodecBody(2, same(ci, 1, 3), true), c22CodecCheck)
-		add(fmt.Sprintf("codec/%s/write-io.Writer/cap1/2callers", cd.Name), vrt.Pick(r, 1, 2), c22CodecBody(1, same(ci, 3, 2), false), c22CodecCheck)
+		add(fmt.Sprintf("codec/%s/write-io.Writer/cap1/2callers", cd.Name), vrt.Pick(r, 1, 3), c22CodecBody(1, same(ci, 3, 2), false), c22CodecCheck)
 	}
 	// all stackless writers share one queue whatever the codec; Append* queues are per codec
 	add("codec/mixed/write-io.Writer/cap1/gzip+br+zstd", vrt.Pick(r, 0, 1), c22CodecBody(1, [][][2]int{{{0, 3}}, {{2, 3}}, {{3, 3}}}, false), c22CodecCheck)
@@ -626,7 +625,7 @@ func TestVerif_C22(t *testing.T) {
 		ran := 0
 		seqStart := time.Now()
 		for i := 0; i < total; i++ {
-			if i%n != k {
+			if int(uint32(i)*2654435761>>12)%n != k { // multiplicative hash: expensive neighbours (same body) spread over the workers
 				continue
 			}
 			if r.Expired() {
